@@ -17,11 +17,14 @@ WIDTHS = [0, 0, 0, 30, 70, 130]
 
 
 @st.composite
-def blowup(draw, odds=10, sizes=None, wide=True):
-    """None (usually) or a blow-up spec."""
+def blowup(draw, odds=10, sizes=None, wide=True, tier="quick"):
+    """None (usually) or a blow-up spec.  The thorough tier also goes past 4096 and 10000 rows."""
     if draw(st.integers(0, odds - 1)) != 0:
         return None
-    return {"rows": draw(st.sampled_from(sizes or SIZES)), "mode": draw(st.sampled_from(["cycle", "uniform-first"])),
+    sizes = list(sizes or SIZES)
+    if tier == "thorough" and max(sizes) >= 1000:
+        sizes = sizes + [4097, 10001]
+    return {"rows": draw(st.sampled_from(sizes)), "mode": draw(st.sampled_from(["cycle", "uniform-first"])),
             "wide": draw(st.sampled_from(WIDTHS)) if wide else 0}
 
 
